@@ -77,7 +77,7 @@ func RunBehaviours(bs []Behaviour, out string, workers int) error {
 
 // RandomBehaviour draws an action sequence without consulting the specification (the code→spec
 // direction): mostly protocol progress, interleaved with adversarial requests.
-func RandomBehaviour(rng *mrand.Rand, cfg Config, n int, forge map[int][]string, focus int) Behaviour {
+func RandomBehaviour(rng *mrand.Rand, cfg Config, n int, forge map[int][]string, focus int, restartPct int) Behaviour {
 	b := Behaviour{Cfg: cfg}
 	type st struct{ proto, dev string }
 	slots := map[int]*st{}
@@ -115,6 +115,10 @@ func RandomBehaviour(rng *mrand.Rand, cfg Config, n int, forge map[int][]string,
 		r := rng.Intn(100)
 		if focus != 0 && rng.Intn(6) == 0 {
 			scenario()
+			continue
+		}
+		if len(slots) > 0 && rng.Intn(100) < restartPct {
+			b.Actions = append(b.Actions, Action{A: "restart"})
 			continue
 		}
 		var used []int
